@@ -129,7 +129,9 @@ def run(tier, rnd, out):
     lg = logging.getLogger("aioswitcher"); old = lg.level; h = logging.NullHandler(); lg.addHandler(h); lg.setLevel(logging.DEBUG)
     try: run_direct(out, "direct-with-debug-logging-enabled", cs)
     finally: lg.setLevel(old); lg.removeHandler(h)
-    run_bridge(out, "through-a-running-bridge", rnd.sample(cs, 60 if tier == "quick" else 600))
+    longer = [c + world.rand_bytes(rnd, k) for c in c05.captures() for k in (1, 2, 3, 4, 40, 300, 1000)]
+    longer += [b"\xfe\xf0" + world.rand_bytes(rnd, n - 2) for n in (169, 170, 200, 256, 336, 400, 1400)]
+    run_bridge(out, "through-a-running-bridge", rnd.sample(cs, 60 if tier == "quick" else 600) + longer)
     out.exhaustive = tier == "thorough"
     out.notes.append("thorough enumerates all 65536 model codes on each accepted length")
 
